@@ -132,6 +132,12 @@ func vClamp(x int64) int64 {
 }
 
 func vProject(a *Allocator, o *vObs) {
+	if o.Probes == nil {
+		o.Probes = []map[string]any{}
+	}
+	if o.Ret == nil {
+		o.Ret = []int{}
+	}
 	o.Mem = map[string]vMemEntry{}
 	for k, al := range a.allocated {
 		e := vMemEntry{Pool: al.pool, Ips: kit.AbsList(al.ips), Sk: al.key.sharing, Bk: al.key.backend, Ports: []string{}}
@@ -256,7 +262,7 @@ func TestVerifAllocReplay(t *testing.T) {
 	out := kit.NewObsWriter()
 	defer out.Close()
 	probes := os.Getenv("VERIF_PROBES") != "0"
-	for _, w := range walks {
+	kit.ForEachWalk(walks, out, func(w kit.Walk, blk *kit.Block) {
 		var in vInit
 		kit.Must(json.Unmarshal(w.Init, &in))
 		a := New(func(string) {})
@@ -267,7 +273,7 @@ func TestVerifAllocReplay(t *testing.T) {
 		if probes {
 			vProbe(a, layout, o)
 		}
-		out.Write(o)
+		blk.Add(o)
 		for i, raw := range w.Steps {
 			o := &vObs{W: w.ID, I: i + 1, Act: raw}
 			vStep(t, a, &layout, raw, o)
@@ -276,10 +282,10 @@ func TestVerifAllocReplay(t *testing.T) {
 			if probes && o.Panic == "" {
 				vProbe(a, layout, o)
 			}
-			out.Write(o)
+			blk.Add(o)
 			if o.Panic != "" {
 				break
 			}
 		}
-	}
+	})
 }
